@@ -456,6 +456,17 @@ def _inline_body(helper, call: ast.Call, kind: str, st: ast.stmt, uid: int, is_m
     return out
 
 
+def _delete_def(tree: ast.Module, h) -> None:
+    for holder in [tree] + [c for c in tree.body if isinstance(c, ast.ClassDef)]:
+        for i, st in enumerate(holder.body):
+            if st is h:
+                if len(holder.body) == 1:
+                    holder.body[i] = ast.copy_location(ast.Pass(), st)
+                else:
+                    del holder.body[i]
+                return
+
+
 def inline_helpers(tree: ast.Module, keep: Set[str], rounds: int = 3) -> bool:
     changed_any = False
     uid = [0]
@@ -524,6 +535,7 @@ def inline_helpers(tree: ast.Module, keep: Set[str], rounds: int = 3) -> bool:
                             if body is not None:
                                 stmts[i : i + 1] = body
                                 changed = True
+                                _delete_def(tree, h)  # its single use is gone: the definition is dead code
                                 i += len(body)
                                 continue
                 for fld in ("body", "orelse", "finalbody"):
@@ -588,6 +600,7 @@ def inline_helpers(tree: ast.Module, keep: Set[str], rounds: int = 3) -> bool:
                             s.test = Rep().visit(s.test)
                         else:
                             s.value = Rep().visit(s.value)
+                        _delete_def(tree, h)
                         stmts[i:i] = pre
                         i += len(pre)
                         changed = True
@@ -799,6 +812,8 @@ def normalize_tree(tree: ast.Module, keep: Iterable[str] = (), substitute_rounds
     tree = _MapToGen().visit(tree)
     ast.fix_missing_locations(tree)
     inline_helpers(tree, set(keep))
+    tree = _Untuple().visit(tree)  # parallel assignments produced by inlining a tuple-returning helper
+    ast.fix_missing_locations(tree)
     for st in tree.body:
         fns = []
         if isinstance(st, FuncNode):
